@@ -112,6 +112,10 @@ pub fn enumerate(index: u64, tier: Tier) -> Option<Prog> {
 fn gen_prog(rng: &mut Rng, depth: usize) -> Prog {
   let np = PIECES.len();
   if depth == 0 {
+    if rng.chance(1, 25) {
+      // many pieces (binary searches / fast paths beyond small piece counts)
+      return Prog::FromIter((0..rng.range(33, 90)).map(|_| rng.below(np)).collect());
+    }
     return match rng.below(3) {
       0 => Prog::New,
       1 => Prog::From(rng.below(np)),
@@ -393,7 +397,29 @@ fn check(case: &Value, obs: &mut Obs) {
   let prog: Prog = serde_json::from_value(case["prog"].clone()).unwrap();
   let (r, m) = eval(&prog);
   if m.len() > 64 {
-    obs.count("skipped_too_long", 1);
+    // long ropes: unary observers and a sample of slices only (quadratic otherwise)
+    obs.class("many_pieces_or_long");
+    unary(&r, &m, "rope", obs);
+    let bs = boundaries(&m);
+    for w in bs.windows(2).step_by(3) {
+      let (s0, e0) = (w[0], *bs.last().unwrap());
+      for (a, b) in [(s0, w[1]), (0, w[1]), (s0, e0)] {
+        let got = r.get_byte_slice(a..b).map(|g| g.to_string());
+        if got.as_deref() != m.get(a..b) {
+          obs.fail("get_byte_slice_value", format!("rope: get_byte_slice({a}..{b}) = {got:?}, expected {:?}", m.get(a..b)));
+          return;
+        }
+      }
+    }
+    let half = bs[bs.len() / 2];
+    let other = Rope::from_iter([&*Box::leak(m[..half].to_string().into_boxed_str()), &*Box::leak(m[half..].to_string().into_boxed_str())]);
+    if !r.starts_with(&other) || r != other || !(r == *m.as_str()) {
+      obs.fail("eq_rope", format!("long rope differs from a two-piece rope of the same text {m:?}"));
+    }
+    let (n, special) = shape(&prog);
+    if n >= 2 && special {
+      obs.nontrivial();
+    }
     return;
   }
   unary(&r, &m, "rope", obs);
